@@ -126,7 +126,8 @@ CLAIM = dict(
     category="proof",
     text="Sequential result semantics of all 63 atomic access functions proved for all operand values and (aligned) addresses with dfcc frames; "
          "the generated call sites of all 64 atomic opcodes proved to pass base+offset, operands in order and to deliver the old value. Cross-thread "
-         "atomicity is reduced to the static fact that each operation is exactly one __atomic builtin with seq_cst ordering; interleavings are not explored.",
+         "atomicity is reduced to the static fact that each operation is exactly one __atomic builtin with seq_cst ordering; interleavings are not explored. "
+         "The atomic load / store emitters of c.c are under a per-opcode contract at every operand-stack height (opcode -> runtime function, result type, natural alignment; thorough tier).",
     note="Assumed: compiler atomic builtins are atomic and sequentially consistent; CBMC's sequential model of the builtins. Schedules: none explored.",
     technique="CBMC code contracts on the atomic runtime functions + call-site contracts on generated code + static seq_cst fact",
 )
